@@ -54,6 +54,7 @@ pub struct OStats {
     pub panics_seen: u64,
     pub refresh_queries: u64,
     pub truncated_accepted: u64,
+    pub announcements_judged: u64,
     pub cut_short: bool,
 }
 
@@ -66,7 +67,7 @@ impl OStats {
             ingest_filtered_own, ingest_filtered_foreign, known_exact, known_exact_nonempty, known_safety_only,
             known_with_expired_entries, discovered_judged, discovered_skipped, dumps_judged, dump_entries,
             dumps_with_expired, c16_instances, c16_dump_checks, probes_sent, probes_answered, probes_excluded,
-            api_probes, resolver_probes, panics_seen, refresh_queries, truncated_accepted);
+            api_probes, resolver_probes, panics_seen, refresh_queries, truncated_accepted, announcements_judged);
     }
 }
 
@@ -839,6 +840,32 @@ pub fn analyse(sc: &Scenario, out: &RunOutput) -> Analysis {
                         _ => true,
                     };
                     dgram_exact.insert(d, exact);
+                    // advertiser side of C15: what a discovery node announces must be exactly the
+                    // records of the instance its application described
+                    if let NodeKind::Discovery { instance, ttl, .. } = &sc.nodes[node as usize].kind {
+                        let m = &models[node as usize];
+                        if m.active && !m.removed {
+                            if let Ok(msg) = refdns::decode(&dg.bytes, true) {
+                                if msg.is_response() {
+                                    st.announcements_judged += 1;
+                                    let want: BTreeSet<RecKey> = instance_records(&m.service, instance, *ttl, false).iter().map(|r| r.key().norm()).collect();
+                                    let got: BTreeSet<RecKey> = msg.answers.iter().map(|r| r.key().norm()).collect();
+                                    for k in want.difference(&got) {
+                                        push("C15", "announce:record-missing".into(), format!("node {}: the announcement of instance {:?} lacks its {} record (type {}, rdata {:?})", node, instance.name, name_to_string(&k.owner), k.rtype, String::from_utf8_lossy(&k.rdata)));
+                                    }
+                                    for k in got.difference(&want) {
+                                        push("C15", "announce:record-unexpected".into(), format!("node {}: the announcement of instance {:?} carries {} type {} rdata {:?} which the application did not describe", node, instance.name, name_to_string(&k.owner), k.rtype, String::from_utf8_lossy(&k.rdata)));
+                                    }
+                                    for a in &msg.additional {
+                                        let k = a.key().norm();
+                                        if !want.contains(&k) {
+                                            push("C15", "announce:record-unexpected".into(), format!("node {}: the announcement of instance {:?} carries additional record {} type {} which the application did not describe", node, instance.name, name_to_string(&k.owner), k.rtype));
+                                        }
+                                    }
+                                }
+                            }
+                        }
+                    }
                 }
             }
             _ => {}
@@ -916,6 +943,12 @@ pub fn analyse(sc: &Scenario, out: &RunOutput) -> Analysis {
                 findings.push(Finding { prop: "C20", sig: "authoritative-returned-by-cache-query".into(), detail: format!("node {}: cache-only query returns authoritative record {} type {}", node, name_to_string(&k.owner), k.rtype) });
             } else if !live.contains(k) && !maybe.contains(k) && !*fuzzy {
                 findings.push(Finding { prop: "C20", sig: "expired-or-unknown-returned".into(), detail: format!("node {}: cache query returns {} type {} which the node never received or whose TTL has elapsed", node, name_to_string(&k.owner), k.rtype) });
+            }
+        }
+        // C16(3): a stored (owned) copy that differs from the record that was received
+        for k in live.difference(&got_cached) {
+            if let Some(g) = got_cached.iter().find(|g| !live.contains(*g) && !maybe.contains(*g) && g.rtype == k.rtype && g.class == k.class && (g.owner == k.owner || g.rdata == k.rdata)) {
+                findings.push(Finding { prop: "C16", sig: format!("stored-copy-differs:t{}", k.rtype), detail: format!("node {}: {} type {} was received with rdata {:02x?} but the stored owned copy is {} with rdata {:02x?}", node, name_to_string(&k.owner), k.rtype, &k.rdata[..k.rdata.len().min(24)], name_to_string(&g.owner), &g.rdata[..g.rdata.len().min(24)]) });
             }
         }
         for k in live.difference(&got_cached) {
